@@ -1,8 +1,8 @@
 (* Property C11 - a Sub view shows exactly its subtree and keeps its own user,
    umask and current directory.  Statements only (POSIX flavour); the proofs are in
-   Fs/SubIsolated.v, Fs/SubProofs.v, Fs/SubCalls.v, Fs/SubWorld.v. *)
+   Fs/SubIsolated.v, Fs/SubProofs.v, Fs/SubCalls.v, Fs/SubWorld.v, Fs/SubFrame.v. *)
 From Avfs Require Import Base PathModel PathSpec PathCleanProofs PathIterProofs MemFS MemFile World
-  SubIsolated SubProofs SubCalls SubWorld.
+  SubIsolated SubProofs SubCalls SubWorld SubFrame.
 
 (* ------------------------------------------------------------------------------------
    ISOLATION.  A world has any number of views (nested ones and views of "/" included:
@@ -158,6 +158,16 @@ Theorem C11_confine : forall (s : fsys) (v : view) (path : str) (slm : slmode),
   (forall x, sr_parent (search_node s v path slm) = Some x -> reach (f_heap s) (v_root v) x)
   /\ (forall c, sr_child (search_node s v path slm) = Some c -> reach (f_heap s) (v_root v) c).
 Proof. exact search_node_confined. Qed.
+
+(* ... and what a call does with them stays inside: EVERY namespace call through a view (the 15
+   that change the node graph - Mkdir, MkdirAll, OpenFile, Remove, RemoveAll with its recursive
+   removal, Rename, Link, Symlink, Truncate, Chmod, Chown, Lchown, WriteFile - and trivially the
+   others) leaves every node that is not reachable from the view's root exactly as it was *)
+Theorem C11_confine_frame : forall (w : world) (c : call) (vi : nat) (v : view) (i : nat),
+  ns_view c = Some vi -> nth_error (w_views w) vi = Some v -> v_os v = Linux ->
+  i < length (f_heap (w_fs w)) -> ~ reach (f_heap (w_fs w)) (v_root v) i ->
+  get (f_heap (w_fs (fst (wstep w c)))) i = get (f_heap (w_fs w)) i.
+Proof. exact wstep_frame. Qed.
 
 (* why: the path the walk iterates over is a cleaned absolute path - no "..", "." or empty
    component is left (the lexical clamp at the view's root) ... *)
